@@ -11,6 +11,7 @@ their definitions on all 0/1/2-valued arrays of small shapes.  Tester sets are f
 conjugated by one generic unitary, so VERIF_SEED changes their orientation but not their conditioning.
 """
 import itertools
+import warnings
 import math
 
 import numpy as np
@@ -586,6 +587,23 @@ def ex_helpers(p, seed):
                     if not ok or got != exact:
                         hfail(out, seen, "matrix_util.calc_se", "differs-from-sum-of-squares", "L=%d,k=%d" % (L, k),
                               "xs=%r ys=%r -> %r, exact %r" % (X, Y, got, exact))
+        # complex entries (density matrices / POVM elements with a Y component): squared error = sum |x - y|^2
+        vals = (0.0, 1.0, 1j, 1 - 1j)
+        for L, k in ((1, 1), (1, 2), (2, 1)):
+            pool = [np.array(c, dtype=np.complex128).reshape(L, k) for c in itertools.product(vals, repeat=L * k)]
+            for X in pool:
+                for Y in pool:
+                    n += 1
+                    exact = float(sum(abs(X[i][t] - Y[i][t]) ** 2 for i in range(L) for t in range(k)))
+                    with warnings.catch_warnings():
+                        warnings.simplefilter("ignore")
+                        ok, got = A.call(mu.calc_se, [x for x in X], [y for y in Y])
+                    out.ops += 1
+                    out.traces += 1
+                    out.count("calc_se_complex_inputs")
+                    if not ok or abs(complex(got) - exact) > 1e-12:
+                        hfail(out, seen, "matrix_util.calc_se", "differs-from-sum-of-squared-moduli:complex", "L=%d,k=%d" % (L, k),
+                              "xs=%r ys=%r -> %r, exact %r" % (X.tolist(), Y.tolist(), got, exact))
     elif which == "calc_mse_prob_dists":
         # R repetitions, each a list of L arrays of length k; se of one repetition is decided by the difference pattern
         for Rn, L, k in ((1, 1, 2), (2, 1, 2), (3, 1, 1), (2, 2, 1), (3, 2, 1)):
